@@ -144,6 +144,18 @@ P = {
         "stall_s": 25,
         "rss_mb": 2500,
     },
+    "C18": {
+        "level": "fault_enumeration",
+        "runs": {"quick": 96, "thorough": 6000},
+        "budget_s": {"quick": 280, "thorough": 3300},
+        "min_per_worker": 2,
+        "rule": "one scenario = a restart history of 2-3 (thorough: 2-5) boots on one data directory with varying sets of enabled storage-backed services (ssh, ftp, smtp, ldap, agent); every boot is a separate OS process running the real start-up path; even scenario indices arm one of the 19 named crash points (token file: before create / created empty / written; every store write of key and certificate: before / after) in the first boot, in rotation, so a batch of 38 scenarios enumerates all of them; a quarter plant a token-file state (absent, empty, proper prefix) before the second boot; evaluations counts boots; distinct = distinct history digest; non-trivial = a crash fired, a token state was planted, or more than two boots",
+        "components": comp(real=["server.New/WithDataDir/WithToken, storage + badger on a real directory, services ssh/ftp/smtp/ldap storage helpers, listener/agent key pair; real Run() in a bubble for observation"], stub=["x/crypto/ssh and crypto/tls clients as observers inside the bubble"], simulated=["process kill = os.Exit at a named crash point inserted around every store write by the build overlay"]),
+        "assumptions": ["power loss (page-cache loss, torn badger value-log writes) is not simulated: the property speaks of the process being killed", "a token file removed or truncated between boots resets what 'first generated' means for the token"],
+        "stall_s": 280,
+        "single_timeout": 900,
+        "min_budget": 30,
+    },
 }
 
 def get(prop):
